@@ -49,7 +49,7 @@ Init ==
   /\ mon = [anySig |-> FALSE, realFail |-> FALSE, firstObs |-> NoObs, finalObs |-> NoObs,
             tbDraws |-> <<>>, gens |-> 0, passes |-> 0, fromFF |-> FALSE, failSeed |-> Zero,
             iters |-> 0, saved |-> NoStream, savedFile |-> "", finalRan |-> FALSE, invs |-> 0,
-            firstKind |-> "none", firstStream |-> NoStream, failDraws |-> <<>>, early |-> FALSE, ffStreams |-> {}]
+            firstKind |-> "none", firstStream |-> NoStream, failDraws |-> <<>>, early |-> FALSE, ffStreams |-> {}, lastClass |-> "none"]
 
 EUnch == UNCHANGED <<pc, cfg, ffq, ff, pend, valid, invalid, seed, cur, flag, e1, e2, buf, best, orig, sErr, cache, shrinks, rep, tbFailed, tbFailNow, mon>>
 
@@ -232,6 +232,8 @@ TBLog ==
   /\ Is("tb.logf") /\ Adv
   /\ CASE Ev.class = "ok" -> Do(V_PassLogged(Ev.valid), E_PassLogged(Ev.valid))
        [] Ev.class = "ffignore" -> Do(V_FFIgnoreLogged, E_FFIgnoreLogged)
+       [] Ev.class = "teststart" -> EUnch /\ viol' = viol \cup V_TestStart(Ev.n, Ev.seedw.l)
+       [] Ev.class = "testend" -> EUnch /\ viol' = viol \cup V_TestEnd(Ev.n, Ev.res)
        [] Ev.class = "draw" /\ cur.kind = "final" ->
             E_DrawLogged(IF Ev.auto >= 0 THEN "" ELSE Ev.label, Ev.val) /\ viol' = viol \cup If(Ev.auto >= 0 /\ Ev.auto # Len(cur.obs.draws), "label_carried_over")
        [] Ev.class = "draw" /\ cur.kind # "final" ->
